@@ -4,14 +4,15 @@ set -e
 cd "$(dirname "$0")"
 export PIP_NO_INDEX=1 PIP_DISABLE_PIP_VERSION_CHECK=1
 V=.venv
-if [ ! -x $V/bin/python ] || ! $V/bin/python -c "import z3, jsonschema" 2>/dev/null; then
+if [ ! -x $V/bin/python ] || ! $V/bin/python -c "import z3, jsonschema, numpy" 2>/dev/null; then
   rm -rf $V
   /venv/bin/python -m venv $V
   SP=$($V/bin/python -c "import sysconfig; print(sysconfig.get_paths()['purelib'])")
   printf "import site; site.addsitedir('/venv/lib/python3.12/site-packages')\n" > "$SP/_overlay.pth"
   $V/bin/python -m pip install -q --no-index --find-links /opt/veriftools/wheels z3-solver jsonschema
   # optional second-opinion solver and NumPy (only used by checks that say so); failure is not fatal
-  $V/bin/python -m pip install -q --no-index --find-links /opt/veriftools/wheels cvc5 numpy 2>/dev/null || true
+  $V/bin/python -m pip install -q --no-index --find-links /opt/veriftools/wheels numpy 2>/dev/null || true     # C37 (secure NumPy arrays) needs it
+  $V/bin/python -m pip install -q --no-index --find-links /opt/veriftools/wheels cvc5 2>/dev/null || true
 fi
 $V/bin/python -c "import z3, mpyc, jsonschema; print('setup ok: z3', z3.get_version_string(), 'mpyc', mpyc.__version__, mpyc.__file__)"
 # engine self-test (SymInt operators vs Python semantics, Int->BV translator vs z3 Int): must report 0 mismatches
